@@ -11,6 +11,7 @@
                           Instance.Restart (listeners of the old instance are inherited by address through
                           dup'ed descriptors; only on success the old instance is stopped and spliced out)
      sigtrap_posix.go     SIGUSR1: clone hooks, purge, Restart(instances[0]), restore on error
+                          (every failing start / validation also restores the registry it found on entry)
      plugins.go           RegisterEventHook / cloneEventHooks / purgeEventHooks / restoreEventHooks
      onevent/on.go        `on`: registers its hooks in the global registry while the directive is set up
      basicauth/basicauth.go GetHtpasswdMatcher: package-level cache keyed by file name, guarded by a
@@ -210,7 +211,7 @@ Fixpoint start_servers (old : list (addr * N)) (addrs : list addr) (g : gstate) 
 (* ---------------------------------------------------------------- startWithListenerFds *)
 Definition parse_ok (c : cfg) : bool := match c_parse c with PNone => true | _ => false end.
 
-Definition start_with (step : N) (e : env) (c : cfg) (old : list (addr * N)) (g : gstate)
+Definition start_body (step : N) (e : env) (c : cfg) (old : list (addr * N)) (g : gstate)
   : outcome * gstate * option inst :=
   if negb (parse_ok c) then (RErr, g, None)
   else
@@ -230,6 +231,17 @@ Definition start_with (step : N) (e : env) (c : cfg) (old : list (addr * N)) (g 
     | x => (x, g1, None)
     end.
 
+(* the deferred clean-up of startWithListenerFds: on every error the event-hook registry is put back as it
+   was on entry (cloneEventHooks / restoreEventHooks), whatever the directives of the rejected
+   configuration registered; the instance is spliced out of the list (collapsed, see above) *)
+Definition start_with (step : N) (e : env) (c : cfg) (old : list (addr * N)) (g : gstate)
+  : outcome * gstate * option inst :=
+  let '(r, g', oi) := start_body step e c old g in
+  match r with
+  | ROk => (r, g', oi)
+  | x => (x, set_hooks g' (g_hooks g), oi)
+  end.
+
 (* Instance.Stop: every server closes its descriptor *)
 Definition stop_inst (g : gstate) (i : inst) : gstate :=
   set_socks g (fold_left close_fd (map snd (i_servers i)) (g_socks g)) (g_next g).
@@ -241,9 +253,15 @@ Definition do_load (step : N) (e : env) (c : cfg) (g : gstate) : outcome * gstat
   | (x, g', _) => (x, g')
   end.
 
+(* ValidateAndExecuteDirectives: when a directive fails the hook registry is put back as it was before the
+   directives were executed *)
 Definition do_validate (step : N) (e : env) (c : cfg) (g : gstate) : outcome * gstate :=
   if negb (parse_ok c) then (RErr, g)
-  else let '(r, g', _) := exec_effs step e (c_effs c) g l0 in (r, g').
+  else let '(r, g', _) := exec_effs step e (c_effs c) g l0 in
+       match r with
+       | ROk => (r, g')
+       | x => (x, set_hooks g' (g_hooks g))
+       end.
 
 (* Instance.Restart on instances[0] *)
 Definition do_reload (step : N) (e : env) (c : cfg) (g : gstate) : outcome * gstate :=
@@ -477,11 +495,10 @@ Definition socks_ok (g : gstate) : Prop :=
 Definition wf (g : gstate) : Prop :=
   (forall i, In i (g_insts g) -> srv_wf (i_servers i)) /\ socks_ok g.
 
-(* the faithful model leaves something behind exactly through: hooks of `on` (not on the SIGUSR1 path),
-   the htpasswd cache, the rollers of startup callbacks that ran *)
+(* the faithful model leaves something behind exactly through: the htpasswd cache, the rollers of startup
+   callbacks that ran *)
 Definition harmless0 (m : mode) (c : cfg) : bool :=
-  (match m with Sigusr1 => true | _ => no_on (c_effs c) end)
-  && no_auth (c_effs c)
+  no_auth (c_effs c)
   && (match m with Validate | Execute => true | _ => no_log (c_effs c) end).
 
 (* only what an attempt reaches matters: nothing of a configuration that does not parse; of one with a
